@@ -45,6 +45,18 @@ def check_rep(ctx: Ctx, c: Dict[str, Any]) -> None:
             return None
         return flat[..., 0]
 
+    # without an explicit 'axes' the vectors are taken w.r.t. the cube convention of the GRID (its align_corners flag), for single fields and batches
+    for gflag in (g, g.align_corners(not g.align_corners())):
+        want_ax = Axes.CUBE_CORNERS if gflag.align_corners() else Axes.CUBE
+        try:
+            made = [("FlowField(data, grid)", FlowField(const_field(gflag, reps["cube"])[0], gflag)), ("FlowFields(data, grid)", FlowFields(const_field(gflag, reps["cube"]), gflag)),
+                    ("FlowField.from_image", FlowField.from_image(Image(const_field(gflag, reps["cube"])[0], gflag))), ("FlowField.batch()", FlowField(const_field(gflag, reps["cube"])[0], gflag).batch()),
+                    ("FlowFields[0]", FlowFields(const_field(gflag, reps["cube"]), gflag)[0])]
+            for how, ff_ in made:
+                if ff_.axes() is not want_ax:
+                    bad("default axes", f"{how} on a grid with align_corners={gflag.align_corners()} is labelled {ff_.axes().value}, expected {want_ax.value}", how=how, grid_ac=gflag.align_corners())
+        except Exception as ex:
+            bad("default axes", f"raised {type(ex).__name__}: {str(ex)[:100]}", exc=type(ex).__name__)
     for a in AXES:
         f = FlowFields(const_field(g, reps[a]), g, Axes(a))
         for b in AXES:
